@@ -2915,6 +2915,9 @@ func ruleErr1(c *Ctx, r *Reporter) {
 					return false
 				}
 				if sig.Results().Len() == 1 {
+					if deadDeferredStoresOnly(val, fn) {
+						return false
+					}
 					for _, ref := range *refs {
 						if _, isDbg := ref.(*ssa.DebugRef); !isDbg {
 							return true
@@ -2924,6 +2927,9 @@ func ruleErr1(c *Ctx, r *Reporter) {
 				}
 				for _, ref := range *refs {
 					if ex, ok := ref.(*ssa.Extract); ok && ex.Index == i {
+						if deadDeferredStoresOnly(ex, fn) {
+							return false
+						}
 						if rr := ex.Referrers(); rr != nil && len(*rr) > 0 {
 							return true
 						}
@@ -2996,4 +3002,48 @@ func ruleErr1(c *Ctx, r *Reporter) {
 	}
 	r.ok("summary", "-", fmt.Sprintf("%d calls with an error / status result examined, %d results dropped (all listed)", n, dropped))
 	r.guard(n, 300, "calls with an error or status result")
+}
+
+// deadDeferredStoresOnly: v is used for nothing but being stored, inside a deferred function literal, into a variable
+// of the enclosing function that is not one of its named results. Deferred functions run after the results have been
+// set, so such a store reaches nobody: `defer func() { err = commit() }()` in a function with unnamed results drops
+// the error although it looks assigned.
+func deadDeferredStoresOnly(v ssa.Value, fn *ssa.Function) bool {
+	par := fn.Parent()
+	if par == nil || v.Referrers() == nil {
+		return false
+	}
+	deferred := false
+	allInstrs(par, func(in ssa.Instruction) {
+		if d, ok := in.(*ssa.Defer); ok {
+			if mc, ok := d.Call.Value.(*ssa.MakeClosure); ok && mc.Fn == ssa.Value(fn) {
+				deferred = true
+			}
+		}
+	})
+	if !deferred {
+		return false
+	}
+	n := 0
+	for _, ref := range *v.Referrers() {
+		switch x := ref.(type) {
+		case *ssa.DebugRef:
+		case *ssa.Store:
+			fv, ok := x.Addr.(*ssa.FreeVar)
+			if !ok || x.Val != v {
+				return false
+			}
+			// named result of the parent?
+			res := par.Signature.Results()
+			for i := 0; i < res.Len(); i++ {
+				if res.At(i).Name() != "" && res.At(i).Name() == fv.Name() {
+					return false
+				}
+			}
+			n++
+		default:
+			return false
+		}
+	}
+	return n > 0
 }
